@@ -55,6 +55,9 @@ package keeper
 //@ ensures [bad-len] res != nil && len(res) != 1 ==> result != nil && S == old(S) && E == old(E)
 //@ ensures [no-deps-on-result] !isErr ==> E == old(E)
 //@ ensures [vsc-matured-ack-is-noop] (stretch) res != nil && len(res) == 1 && consumerPacket.Type == ccv.VscMaturedPacket ==> result == nil && S == old(S) && E == old(E) && X == old(X)
+//@ precall ClearSlashRecord [only-for-slash-acks] consumerPacket.Type != ccv.VscMaturedPacket
+//@ precall DeleteHeadOfPendingPackets [only-for-slash-acks] consumerPacket.Type != ccv.VscMaturedPacket
+//@ precall UpdateSlashRecordOnBounce [only-for-slash-acks] consumerPacket.Type != ccv.VscMaturedPacket
 //@ ensures [handled-unblocks] res != nil && len(res) == 1 && consumerPacket.Type != ccv.VscMaturedPacket && (res[0] == ccv.V1Result[0] || res[0] == ccv.SlashPacketHandledResult[0]) ==> $ClearSlashRecord.called && $DeleteHeadOfPendingPackets.called && !$UpdateSlashRecordOnBounce.called
 //@ ensures [bounced-keeps-slash-at-head] res != nil && len(res) == 1 && consumerPacket.Type != ccv.VscMaturedPacket && res[0] == ccv.SlashPacketBouncedResult[0] && res[0] != ccv.V1Result[0] && res[0] != ccv.SlashPacketHandledResult[0] ==> $UpdateSlashRecordOnBounce.called && !$DeleteHeadOfPendingPackets.called && !$ClearSlashRecord.called
 //@ ensures [unknown-result-rejected] res != nil && len(res) == 1 && consumerPacket.Type != ccv.VscMaturedPacket && res[0] != ccv.V1Result[0] && res[0] != ccv.SlashPacketHandledResult[0] && res[0] != ccv.SlashPacketBouncedResult[0] ==> result != nil && !$ClearSlashRecord.called && !$DeleteHeadOfPendingPackets.called
